@@ -1,7 +1,11 @@
 use std::collections::HashMap;
 use std::ops::{RangeBounds, RangeToInclusive};
 
+#[cfg(not(quickwit_oss_mrecordlog_verif))]
 use tracing::{info, warn};
+
+#[cfg(quickwit_oss_mrecordlog_verif)]
+use crate::verif_noop::{info, warn};
 
 use crate::error::{AlreadyExists, AppendError, MissingQueue};
 use crate::mem::{MemQueue, QueuesSummary};
